@@ -142,6 +142,20 @@ func (d *docModel) clone() *docModel {
 			cloneTree(top, mp[top.parent], mp)
 			nn = mp[h.n]
 		}
+		if nn == nil {
+			// the node was unlinked from a parent that is itself detached (a replaced member of a replaced
+			// member): clone the chain of unlinked ancestors one by one, each with its parent pointer only
+			var ensure func(n *mnode)
+			ensure = func(n *mnode) {
+				if n == nil || mp[n] != nil {
+					return
+				}
+				ensure(n.parent)
+				cloneTree(n, mp[n.parent], mp)
+			}
+			ensure(h.n)
+			nn = mp[h.n]
+		}
 		c.handles = append(c.handles, docHandle{doc: h.doc, n: nn})
 	}
 	return c
